@@ -272,6 +272,26 @@ def run(ctx):
   depth = ctx.pick(5, 6)
   total_states = total_trans = checked = 0
   coll = {}
+  # the published hashes are defined on the UTF-8 bytes of the key: names outside ASCII (2-, 3-, 4-byte characters,
+  # combining marks, tagged series) must land on the same ring position as in carbon-c-relay / graphite-web
+  from carbon.hashing import carbonHash
+  stems = ['é', 'ü.ß', '日本', '😀', 'a\u0301', 'm;k=é', 'naïve.metric', '\x7f', '\u00ff\u0100', 'Ω.%d', 'x' * 300 + 'é']
+  nonascii = 0
+  for hash_type in HASHES:
+    for stem in stems:
+      for i in range(ctx.pick(50, 500)):
+        key = (stem % i) if '%d' in stem else '%s.%d' % (stem, i)
+        nonascii += 1
+        try:
+          got = carbonHash(key, hash_type)
+        except Exception as e:   # noqa
+          got = 'raised %r' % (e,)
+        want = refring.position(key, hash_type)
+        if got != want:
+          ctx.violation('compat:hash:non-ascii', 'carbonHash(%r, %s)=%r, published algorithm (hash of the UTF-8 bytes) gives %r | hash=%s' % (
+            key, hash_type, got, want, hash_type), {'key': key, 'hash': hash_type})
+          break
+  ctx.add(non_ascii_keys_hashed=nonascii)
   for hash_type in HASHES:
     ringkeys.table(hash_type)
     universe = find_universe(hash_type, ctx.pick(4, 5))
@@ -318,6 +338,13 @@ def run(ctx):
 def replay(path):
   body = json.load(open(path))
   rep = body['replay']
+  if 'key' in rep and 'universe' not in rep:
+    env.boot()
+    from carbon.hashing import carbonHash
+    got, want = carbonHash(rep['key'], rep['hash']), refring.position(rep['key'], rep['hash'])
+    print('carbonHash(%r, %s) = %r; published algorithm: %r' % (rep['key'], rep['hash'], got, want))
+    print('oracle:', 'holds' if got == want else 'VIOLATED')
+    return 0 if got == want else 1
   universe = [tuple(d) for d in rep['universe']]
   hist = [tuple(x) for x in rep['hist']]
   r = expand((rep['hash'], universe, hist[:-1] if body['key'] == 'disruption' else hist, False))
